@@ -11,6 +11,9 @@ func VerifH_C14_NextSkipNext() {
 	root := vIdentityCid([]byte("r"))
 	hdr := vHeaderV1(root)
 	secs := []vSection{vValidSection("s1", 3), vValidSection("s2", 2)}
+	if vTier() == 1 {
+		secs = append(secs, vValidSection("s3", 1)) // three sections in the thorough tier
+	}
 	payload := vPayload(hdr, secs)
 	isV2 := vChoose("v2", 2) == 1
 	base := 0
@@ -37,7 +40,7 @@ func VerifH_C14_NextSkipNext() {
 	}
 	br, err := NewBlockReader(src)
 	vAssert("open", err == nil)
-	for i := 0; i < 2; i++ {
+	for i := range secs {
 		if vChoose("skip", 2) == 1 {
 			md, err := br.SkipNext()
 			vAssert("skip-ok", err == nil)
